@@ -18,7 +18,7 @@ func init() {
 		Race:  true,
 		Rule: "stream script: one generated script specification per case (any subset of the five Lua handlers, decision lists over " +
 			"session.from / last session.to / #session.to / msg.subject / msg.mailboxes[1] / #msg.mailboxes / msg.from, leaves allow, deny(400-599,text, " +
-			"optionally echoing the input), defer, nil, garbage values, error forms, mutate-then-{error,nil,garbage,allow,defer}, rewrite of " +
+			"optionally echoing the input; also the optional-argument forms deny(), deny(code), deny(code,nil), deny(nil,text), deny(code,text,extra) and allow(..)/defer(..) with arguments they ignore), defer, nil, garbage values, error forms, mutate-then-{error,nil,garbage,allow,defer}, rewrite of " +
 			"mailboxes (empty list, several, names no recipient named, derived from input) / from / to / subject, on the passed or a fresh object; " +
 			"after-handlers that do nothing / error / return values / hit a runtime error / assign to their argument's addresses and then error; " +
 			"optionally a Go listener with a fixed answer registered before or after the Lua host) x naming{local,full,domain} x default-accept{t,f} x " +
@@ -31,6 +31,7 @@ func init() {
 			"addresses are unquoted atom@domain forms (plus the null sender), so the value the hook sees is the text that was sent",
 			"an explicit smtp.defer() by the first listener followed by a listener that answers: both 'policy decides' and 'the later listener decides' are accepted (the statement leaves open whether defer counts as an answer); counted as unspecified:*",
 			"deny() without arguments: only a refusal (code >= 400) is demanded, the default text is the implementation's",
+			"deny(code) / deny(code, nil): the hook's code is demanded, the text is the server's default and not judged; deny(nil, text): the hook's text is demanded with any refusal code; arguments a constructor does not take (smtp.allow(..), smtp.defer(..), a third argument of smtp.deny) do not change its answer",
 			"a hook's allow is only checked for syntactically valid addresses below the recipient limit",
 			"rewritten mailbox names are lower-case atoms; duplicate names in a returned list and non-string list entries are not generated",
 			"the stored Size and message id are not judged here (C01/C02)",
@@ -45,6 +46,8 @@ func init() {
 				"first-wins:rcpt:go-first": 1, "first-wins:rcpt:lua-first": 1, "first-wins:stored:go-first": 1, "first-wins:stored:lua-first": 1,
 				"removals_checked": 50, "after_stored:error": 10, "after_stored:mutate-error": 10, "after_deleted:error": 5, "after_deleted:mutate-error": 5, "conc_rounds": 10, "conc_sessions": 100, "conc_denies_echoed": 100, "conc_deliveries": 50,
 				"conc_fallbacks": 50, "distinct_nontrivial": 100,
+				"mail:deny-code-only": 2, "rcpt:deny-code-only": 3, "deny-code-only-not-550": 5, "rcpt:deny-text-only": 1,
+				"rcpt:leaf:allow(args)": 3, "rcpt:leaf:defer(args)": 2, "rcpt:leaf:deny(extra)": 1,
 			}
 		},
 		Run: run,
